@@ -50,12 +50,16 @@ type FuncVC struct {
 	homePkg    string          // package of the function being verified: its opaque preds are revealed
 	reveal     map[string]bool // explicitly revealed opaque preds
 	revealAll  bool
+	scopeEnd   map[string]string // scoped assumption "pc\x00formula" -> pc at which it is forgotten
+	openScoped []string
+	entryPC    string          // pc after the preconditions were assumed
+	cutAt      map[string]string // pc at which a cut takes effect -> pc just before the cut's own assertions
 }
 
 func NewFuncVC(w *World, name string) *FuncVC {
 	return &FuncVC{w: w, name: name, decls: map[string]string{}, funDecls: map[string]string{},
 		pcParents: map[string][]string{}, pcCons: map[string][]string{}, cards: map[string]bool{},
-		boxes: map[string]bool{}, globals: map[*types.Var]string{}, joins: map[string][]string{}, opaqueMono: map[string]bool{}, reveal: map[string]bool{}}
+		boxes: map[string]bool{}, globals: map[*types.Var]string{}, joins: map[string][]string{}, opaqueMono: map[string]bool{}, reveal: map[string]bool{}, scopeEnd: map[string]string{}, cutAt: map[string]string{}}
 }
 
 func (vc *FuncVC) fresh() int { vc.counter++; return vc.counter }
@@ -307,6 +311,27 @@ func splitConj(goal string) []string {
 func (vc *FuncVC) QueryGoal(ob *Obligation, choice map[string]string, goal string) string {
 	var body strings.Builder
 	anc := vc.ancestors(ob.PC, choice)
+	ancSet := map[string]bool{}
+	for _, p := range anc {
+		ancSet[p] = true
+	}
+	// cuts: facts learnt between the entry region and a cut point above the obligation are forgotten
+	dropped := map[string]bool{}
+	if vc.entryPC != "" {
+		keep := map[string]bool{}
+		for _, p := range vc.ancestors(vc.entryPC, choice) {
+			keep[p] = true
+		}
+		for _, p := range anc {
+			if from, isCut := vc.cutAt[p]; isCut {
+				for _, q := range vc.ancestors(from, choice) {
+					if !keep[q] {
+						dropped[q] = true
+					}
+				}
+			}
+		}
+	}
 	for _, p := range anc {
 		if parents, isJoin := vc.joins[p]; isJoin {
 			if c, ok := choice[p]; ok {
@@ -315,7 +340,16 @@ func (vc *FuncVC) QueryGoal(ob *Obligation, choice map[string]string, goal strin
 				fmt.Fprintf(&body, "(assert (=> %s (or %s)))\n", p, strings.Join(parents, " "))
 			}
 		}
+		if dropped[p] {
+			if _, isJoin := vc.joins[p]; !isJoin && len(vc.pcParents[p]) > 0 {
+				fmt.Fprintf(&body, "(assert (=> %s %s))\n", p, vc.pcParents[p][0])
+			}
+			continue
+		}
 		for _, c := range vc.pcCons[p] {
+			if end, scoped := vc.scopeEnd[p+"\x00"+c]; scoped && end != "" && ancSet[end] {
+				continue // a ghost assertion whose window has closed
+			}
 			fmt.Fprintf(&body, "(assert (=> %s %s))\n", p, c)
 		}
 	}
